@@ -180,7 +180,7 @@ TResults ==
          ELSE /\ ~Ev.posterior.none
               /\ Len(Ev.posterior.tags) = Len(pc_)
               /\ \A i \in 1..Len(pc_) :
-                   Ev.posterior.tags[i] = pc_[i][KernelOfKey(Hdr.postkey)])
+                   (Hdr.postkey = "" \/ Ev.posterior.tags[i] = pc_[i][KernelOfKey(Hdr.postkey)]))
   /\ Chk("tuning_times_are_the_end_times_of_the_adaptation_epochs", Ev.tuning_times = TuneTimes(1))
   /\ Chk("stored_results_unchanged_by_reading_and_summarising", Ev.reread_ok)
   /\ Chk("results_object_obtained_earlier_shows_what_was_sampled_since", Ev.retained_ok)
